@@ -182,6 +182,9 @@ def setup(concepts, spec):
 
 
 def cases(tier, seed, spec):
+    # > 10 000 objects with a tiny lattice: only a handful of neighbors() calls are affordable
+    yield from (dict(c, few_calls=True) for c in gen.huge(seed, 8 if tier == 'quick' else 32)
+                if c['fam'].endswith('tall') and len(c['objects']) > 10000)
     yield from gen.biglat(tier)
     yield from gen.ctx_stream(tier, seed)
 
@@ -213,11 +216,17 @@ def run_case(concepts, case, spec):
                 judge_structure(common.tie(lat2, ctx), cap, 'second_lattice')
                 common.drop_views()
             COL.count('second_lattice_on_same_context')
+    if case.get('few_calls'):
+        COL.count('huge_object_axis_cases')
+        objs = list(ctx.objects)
+        for sub in ([], [objs[0]], [objs[-1]], rng.sample(objs, 2), [objs[len(objs) // 2]], objs[-3:]):
+            call(ctx.neighbors, sub)
+        return
     k = 0
     asked = []
     for sub in gen.subsets_of(ctx.objects, rng, all_below=8, sampled=30):
         k += 1
-        if k > (300 if spec['tier'] == 'thorough' else 120):
+        if k > ((300 if spec['tier'] == 'thorough' else 120) if sh.n <= 300 else 24):
             break
         if k % 3 == 0:
             call(ctx.neighbors, gen.disguise(sub, rng), True)
